@@ -39,7 +39,7 @@ EXTENDS Naturals, Sequences, FiniteSets, TLC
 
 CONSTANTS Eager,      \* TRUE: sequential part (one caller, server answers on demand); FALSE: two threads + environment
           MaxOps,     \* Eager only: calls before the final drop
-          Fixes       \* subset of {"shutdown", "chunkresume", "atomicrelease", "closeunder"}: repaired designs; {} = the code as found
+          Fixes       \* subset of {"shutdown", "chunkresume", "atomicrelease", "closeunder", "releaseunread"}: repaired designs; {} = the code as found
                       \* (names "break:..." are design-level mutants used as canaries: TLC must refute the named rule)
 
 Threads == {"a", "b"}
@@ -190,22 +190,22 @@ Http(s, kind) ==
   IF ~s.hfp THEN [s |-> s, data |-> 0, hexc |-> "none"]
   ELSE IF s.fr = "cl" THEN
       IF kind = "read" THEN
-          IF R(s) = 2 THEN [s |-> HCloseConn([s EXCEPT !.pos = 2]), data |-> 2 - s.pos, hexc |-> "none"]
+          IF R(s) = 2 THEN [s |-> HCloseConn([s EXCEPT !.pos = 2, !.hdone = TRUE]), data |-> 2 - s.pos, hexc |-> "none"]
           ELSE [s |-> HCloseConn([s EXCEPT !.pos = R(s)]), data |-> 0, hexc |-> "IncompleteRead"]
       ELSE IF Avail(s) >= 1 THEN
           LET s1 == [s EXCEPT !.pos = @ + 1] IN
-          [s |-> IF kind = "readn" /\ s1.pos = 2 THEN HCloseConn(s1) ELSE s1, data |-> 1, hexc |-> "none"]
+          [s |-> IF kind = "readn" /\ s1.pos = 2 THEN HCloseConn([s1 EXCEPT !.hdone = TRUE]) ELSE s1, data |-> 1, hexc |-> "none"]
       ELSE [s |-> HCloseConn(s), data |-> 0, hexc |-> "none"]
   ELSE IF s.fr = "eof" THEN
-      IF kind = "read" THEN [s |-> HCloseConn([s EXCEPT !.pos = R(s)]), data |-> Avail(s), hexc |-> "none"]
+      IF kind = "read" THEN [s |-> HCloseConn([s EXCEPT !.pos = R(s), !.hdone = TRUE]), data |-> Avail(s), hexc |-> "none"]
       ELSE IF Avail(s) >= 1 THEN [s |-> [s EXCEPT !.pos = @ + 1], data |-> 1, hexc |-> "none"]
-      ELSE [s |-> HCloseConn(s), data |-> 0, hexc |-> "none"]
+      ELSE [s |-> HCloseConn([s EXCEPT !.hdone = TRUE]), data |-> 0, hexc |-> "none"]
   ELSE \* chunked, http.client's own chunk parser
       IF kind = "read" THEN
-          IF s.rcv2 = "data" THEN [s |-> HCloseConn([s EXCEPT !.pos = 2, !.hmid = FALSE]), data |-> 2 - s.pos, hexc |-> "none"]
+          IF s.rcv2 = "data" THEN [s |-> HCloseConn([s EXCEPT !.pos = 2, !.hmid = FALSE, !.hdone = TRUE]), data |-> 2 - s.pos, hexc |-> "none"]
           ELSE IF s.rcv2 = "stub" THEN [s |-> [s EXCEPT !.pos = 1, !.hmid = FALSE], data |-> 0, hexc |-> "IncompleteRead"]
           ELSE [s |-> HCloseConn([s EXCEPT !.pos = 1, !.hmid = FALSE]), data |-> 0, hexc |-> "IncompleteRead"]   \* EOF at a size line
-      ELSE IF s.pos = 2 THEN [s |-> HCloseConn([s EXCEPT !.hmid = FALSE]), data |-> 0, hexc |-> "none"]
+      ELSE IF s.pos = 2 THEN [s |-> HCloseConn([s EXCEPT !.hmid = FALSE, !.hdone = TRUE]), data |-> 0, hexc |-> "none"]
       ELSE IF Avail(s) >= 1 THEN [s |-> [s EXCEPT !.pos = @ + 1, !.hmid = TRUE], data |-> 1, hexc |-> "none"]
       ELSE IF s.rcv2 = "stub" THEN [s |-> [s EXCEPT !.hmid = FALSE], data |-> 0, hexc |-> "IncompleteRead"]
       ELSE [s |-> HCloseConn([s EXCEPT !.hmid = FALSE]), data |-> 0, hexc |-> "IncompleteRead"]
@@ -222,13 +222,13 @@ AfterRaw(m, h) ==
   ELSE IF k # "read" /\ h.data = 0 THEN
       LET m2 == [m1 EXCEPT !.s = OrigClose(h.s)] IN
       IF h.s.ulen > 0 /\ h.s.fr = "cl" /\ "break:noincomplete" \notin Fixes THEN Unclean(m2, "ProtocolError") ELSE Clean(m2)
-  ELSE IF k = "read1n" /\ h.s.fr = "cl" /\ h.s.ulen = h.data THEN Clean([m1 EXCEPT !.s = OrigClose(h.s)])
+  ELSE IF k = "read1n" /\ h.s.fr = "cl" /\ h.s.ulen = h.data THEN Clean([m1 EXCEPT !.s = OrigClose([h.s EXCEPT !.hdone = TRUE])])
   ELSE Clean(m1)
 
 \* read_chunked's own parser has what it asked for (or end of file)
 AfterChunk(m) ==
   LET s == m.s IN
-  IF s.pos = 2 THEN Clean([m EXCEPT !.s = OrigClose(s)])                     \* terminator, trailer, original_response.close()
+  IF s.pos = 2 THEN Clean([m EXCEPT !.s = OrigClose([s EXCEPT !.hdone = TRUE])])   \* terminator, trailer, original_response.close()
   ELSE IF Avail(s) >= 1 THEN Complete([m EXCEPT !.s.pos = @ + 1, !.s.gen = "chunk"], "data1", "none")
   ELSE IF s.rcv2 = "stub" THEN Unclean(m, "ProtocolError")                   \* end of file inside the chunk: IncompleteRead
   ELSE Park(Push(m, "ucl"), "ClsBegin")                                      \* end of file at the size line: self.close(), ProtocolError
@@ -298,8 +298,10 @@ StepAt(m) ==
     [] pc = "RelTest" ->
          IF ~s.own THEN ReturnFromRelease(m)
          ELSE LET m0 == IF "atomicrelease" \in Fixes THEN [m EXCEPT !.s.own = FALSE, !.l.arg = TRUE] ELSE m IN
-              IF s.hfp THEN
-                  \* a connection whose body was not read to the end is closed before it goes back
+              IF (IF "releaseunread" \in Fixes THEN ~s.hdone ELSE s.hfp) THEN
+                  \* a connection whose body was not read to the end is closed before it goes back (the code decides
+                  \* "not read to the end" by isclosed(), which an explicit close() of the http.client response also makes true;
+                  \* the repaired design asks whether http.client itself reached the end of the body)
                   LET s1 == ConnSock(m0.s) IN
                   IF s1.cresp THEN CloseOrigThen([m0 EXCEPT !.s = [s1 EXCEPT !.cresp = FALSE]], "RelPut")
                   ELSE Park([m0 EXCEPT !.s = s1], "RelPut")
@@ -392,7 +394,7 @@ Shared0(fr, sv, mode) ==
   LET wc == sv = "close" \/ fr = "eof"
       base == [fr |-> fr, sv |-> sv, mode |-> mode,
                have |-> TRUE, own |-> TRUE, shutset |-> TRUE, ulen |-> IF fr = "cl" THEN 2 ELSE 0, gen |-> "none",
-               hfp |-> TRUE, hflag |-> FALSE, pos |-> 0, hmid |-> FALSE, ioref |-> TRUE,
+               hfp |-> TRUE, hflag |-> FALSE, pos |-> 0, hmid |-> FALSE, ioref |-> TRUE, hdone |-> FALSE,
                csock |-> ~wc, cresp |-> ~wc, sobj |-> wc, shut |-> FALSE, fdopen |-> TRUE,
                fedn |-> 1, rcv2 |-> "no", kern |-> 0, pclosed |-> FALSE,
                slots |-> 0, pooled |-> FALSE, puts |-> 0,
@@ -400,7 +402,7 @@ Shared0(fr, sv, mode) ==
   IF mode = "stream" THEN base
   ELSE IF sv \in {"ka", "close"} THEN
       \* preload_content=True: the body was read to the end while the response was built; the connection is back
-      [base EXCEPT !.own = FALSE, !.ulen = 0, !.hfp = FALSE, !.pos = 2, !.ioref = FALSE, !.fdopen = ~wc,
+      [base EXCEPT !.own = FALSE, !.ulen = 0, !.hfp = FALSE, !.pos = 2, !.ioref = FALSE, !.fdopen = ~wc, !.hdone = TRUE,
                    !.fedn = 2, !.rcv2 = "data", !.pclosed = wc, !.slots = 1, !.pooled = TRUE, !.puts = 1, !.deliv = 2]
   ELSE \* the request itself failed (cut / interrupt while preloading): no response object at all
       [base EXCEPT !.have = FALSE, !.own = FALSE, !.shutset = FALSE, !.ulen = 0, !.hfp = FALSE, !.hflag = TRUE, !.ioref = FALSE,
@@ -439,6 +441,9 @@ Quiet(o) == \A t \in Threads : o.pc[t] \in {"Idle", "Done"}
 SlotAtMostOnce(o) == o.puts <= 1 /\ o.slots <= 1
 SlotNotLost(o)    == (Quiet(o) /\ o.have /\ o.slots = 0) => (o.own /\ o.hfp)
 NotPooledWhileOpen(o) == (o.pooled /\ o.csock) => ~o.hfp
+\* a connection goes back to the pool open only when the server has sent its whole reply and nothing of it is left in flight
+\* (otherwise the next request on that connection reads this response's bytes)
+CleanWhenPooled(o) == (o.pooled /\ o.csock) => (o.fedn = 2 /\ o.kern = 0)
 \* NoUseAfterRelease: no socket I/O of this response on a connection that sits idle and open in the pool
 NoUseAfterRelease(o, o2) == (o.pooled /\ o.csock) => o2.io = "none"
 \* ShutdownUnblocksReader
@@ -482,7 +487,7 @@ F(ok, name) == IF ok THEN {} ELSE {name}
 \* every clause that fails in one observation / between two consecutive observations (the trace monitor is total)
 StateFails(o) ==
   F(SlotAtMostOnce(o), "SlotReturnedExactlyOnce") \cup F(SlotNotLost(o), "SlotNotLost")
-    \cup F(NotPooledWhileOpen(o), "NotPooledWhileOpen") \cup F(NeverHangs(o), "NeverHangs")
+    \cup F(NotPooledWhileOpen(o), "NotPooledWhileOpen") \cup F(CleanWhenPooled(o), "CleanWhenPooled") \cup F(NeverHangs(o), "NeverHangs")
     \cup F(OnlyUrllib3Errors(o), "OnlyUrllib3Errors") \cup F(InterruptsPropagate(o), "InterruptsPropagate")
     \cup F(NoOrphanSocket(o), "NoOrphanSocket")
 TransFails(o, o2) ==
@@ -499,6 +504,7 @@ TypeOK == /\ \A t \in Threads : th[t].pc \in Labels
 InvSlotAtMostOnce == SlotAtMostOnce(Obs)
 InvSlotNotLost == SlotNotLost(Obs)
 InvNotPooledWhileOpen == NotPooledWhileOpen(Obs)
+InvCleanWhenPooled == CleanWhenPooled(Obs)
 InvNeverHangs == NeverHangs(Obs)
 InvOnlyUrllib3Errors == OnlyUrllib3Errors(Obs)
 InvInterruptsPropagate == InterruptsPropagate(Obs)
